@@ -180,7 +180,8 @@ NBase == Len(Base)
 
 (***************************************************************************)
 (* Argument alphabets (2-3 choices per operation).  A rename map is a      *)
-(* sequence of <<old, new>> pairs applied simultaneously.                  *)
+(* sequence of <<old, new>> pairs applied simultaneously; the empty map    *)
+(* (with_inputs() without arguments) still returns a new object.           *)
 (***************************************************************************)
 BindNames   == IF Wide THEN {"x", "a", "k", "n", "s", "c"} ELSE {"x", "a", "n", "s"}
 SelChoices  == IF Wide THEN {<<"c">>, <<"a", "b">>, <<"b">>, <<"t">>, <<"m">>, <<"n", "t">>, <<"z">>}
@@ -188,11 +189,11 @@ SelChoices  == IF Wide THEN {<<"c">>, <<"a", "b">>, <<"b">>, <<"t">>, <<"m">>, <
 EntryNames  == IF Wide THEN {"B", "C", "Q", "T", "P", "Z"} ELSE {"B", "Q", "T"}
 ExtraNodes  == IF Wide THEN {"Z", "W"} ELSE {"Z"}
 NewNames    == IF Wide THEN {"n1", "n2"} ELSE {"n1"}
-InRenames   == IF Wide THEN {<<<<"x", "u">>>>, <<<<"x", "y">>, <<"y", "x">>>>, <<<<"u", "x">>>>, <<<<"y", "x">>>>,
+InRenames   == IF Wide THEN {<<>>, <<<<"x", "u">>>>, <<<<"x", "y">>, <<"y", "x">>>>, <<<<"u", "x">>>>, <<<<"y", "x">>>>,
                              <<<<"p", "u">>>>, <<<<"p", "q">>, <<"q", "p">>>>, <<<<"q", "p">>>>, <<<<"n", "u">>>>}
                        ELSE {<<<<"x", "u">>>>, <<<<"x", "y">>, <<"y", "x">>>>, <<<<"p", "u">>>>, <<<<"p", "q">>, <<"q", "p">>>>,
                              <<<<"n", "u">>>>}
-OutRenames  == IF Wide THEN {<<<<"c", "o">>>>, <<<<"a", "c">>, <<"c", "a">>>>, <<<<"o", "c">>>>, <<<<"r", "o">>>>, <<<<"t", "o">>>>}
+OutRenames  == IF Wide THEN {<<>>, <<<<"c", "o">>>>, <<<<"a", "c">>, <<"c", "a">>>>, <<<<"o", "c">>>>, <<<<"r", "o">>>>, <<<<"t", "o">>>>}
                        ELSE {<<<<"c", "o">>>>, <<<<"r", "o">>>>, <<<<"t", "o">>>>}
 MapParams   == IF Wide THEN {"x", "y", "u", "n", "s"} ELSE {"x", "y", "s"}
 
